@@ -78,7 +78,7 @@ def run(mutdir, ids):
     shutil.copytree(os.path.join(ROOT, "evidence"), os.path.join(bak, "evidence"))
     try:
         for i in ids:
-            rc, out = sh("./bin/check %s --tier quick" % i, cwd=ROOT, timeout=3600)
+            rc, out = sh("./bin/check %s --tier quick" % i, cwd=ROOT, timeout=2400)
             viol = [l for l in out.splitlines() if l.startswith("VIOLATION")]
             why = [l for l in out.splitlines() if l.strip().startswith("key=")]
             results[i] = dict(rc=rc, violations=len(viol), why=why[:3], tail=out[-500:] if rc == 2 else "")
